@@ -1,4 +1,5 @@
 import PedalModel.TimeoutMachine
+import PedalModel.TimeoutIR
 import PedalModel.Gen.TimeoutGen
 /-
 C14 — the interleaving machine (PedalModel/TimeoutMachine.lean) instantiated with the protocol
@@ -7,10 +8,48 @@ facts translated from the tree under test, and the driver's request handlers.
 namespace Pedal.Timeout
 open Pedal.Wire
 
-/-- the protocol facts of the tree under test -/
+open Pedal.TimeoutIR in
+/-- what each source (AST reading, measurement) establishes about the tree under test, and the verdicts -/
+structure Facts where
+  graderAst : Option Bool
+  graderProbe : Option Bool
+  studentAst : Option Bool
+  studentProbe : Option Bool
+  popsAst : Option Bool
+  popsProbe : Option Bool
+  bumpsAst : Option Bool
+  bumpsProbe : Option Bool
+  deriving Repr
+
+open Pedal.TimeoutIR in
+def facts : Facts :=
+  { graderAst := graderClaims Pedal.Gen.Timeout.graderAst,
+    graderProbe := graderClaims Pedal.Gen.Timeout.graderProbe,
+    studentAst := studentChecks Pedal.Gen.Timeout.studentAst,
+    studentProbe := studentChecks Pedal.Gen.Timeout.studentProbe,
+    popsAst := handlerPops Pedal.Gen.Timeout.handlerAst,
+    popsProbe := handlerPops Pedal.Gen.Timeout.handlerProbe,
+    bumpsAst := handlerBumps Pedal.Gen.Timeout.handlerAst,
+    bumpsProbe := handlerBumps Pedal.Gen.Timeout.handlerProbe }
+
+open Pedal.TimeoutIR in
+def Facts.grader (f : Facts) : Option Bool := combine f.graderAst f.graderProbe
+open Pedal.TimeoutIR in
+def Facts.student (f : Facts) : Option Bool := combine f.studentAst f.studentProbe
+open Pedal.TimeoutIR in
+/-- `timeout()` abandons the thread only after winning `claim_finish()` AND `Sandbox._stop_mocking` starts by
+checking the claim (`none`: unknown, contradictory, or only one of the two sides) -/
+def Facts.claim (f : Facts) : Option Bool := bothOrNeither f.grader f.student
+open Pedal.TimeoutIR in
+def Facts.pops (f : Facts) : Option Bool := combine f.popsAst f.popsProbe
+open Pedal.TimeoutIR in
+def Facts.bumps (f : Facts) : Option Bool := combine f.bumpsAst f.bumpsProbe
+
+/-- the protocol facts of the tree under test (an unknown fact counts as absent: the machine then is not the
+repaired one and `cfg_fixed` fails; the driver reports the unknown separately) -/
 def cfg : Cfg :=
-  { claim := Pedal.Gen.Timeout.claim, handlerPops := Pedal.Gen.Timeout.handlerPops,
-    handlerBumps := Pedal.Gen.Timeout.handlerBumps, termTolerant := Pedal.Gen.Timeout.termTolerant }
+  { claim := facts.claim.getD false, handlerPops := facts.pops.getD false,
+    handlerBumps := facts.bumps.getD false, termTolerant := Pedal.Gen.Timeout.termTolerant }
 
 /-- the machine of the tree under test -/
 def run (p : Prog) (sched : List Act) : St := runSched cfg p init sched
@@ -40,9 +79,13 @@ def handleSched : List String → String
     | _, _, _ => "bad-request"
   | _ => "bad-request"
 
+open Pedal.TimeoutIR in
 def handleCfg : List String → String
-  | [] => s!"ok claim={encBool cfg.claim} pops={encBool cfg.handlerPops} bumps={encBool cfg.handlerBumps} tolerant={encBool cfg.termTolerant}"
+  | [] =>
+    s!"ok claim={encBool cfg.claim} pops={encBool cfg.handlerPops} bumps={encBool cfg.handlerBumps} tolerant={encBool cfg.termTolerant} " ++
+    s!"kclaim={encOB facts.claim} kgrader={encOB facts.grader} kstudent={encOB facts.student} kpops={encOB facts.pops} kbumps={encOB facts.bumps} " ++
+    s!"graderast={encOB facts.graderAst} graderprobe={encOB facts.graderProbe} studentast={encOB facts.studentAst} studentprobe={encOB facts.studentProbe} " ++
+    s!"popsast={encOB facts.popsAst} popsprobe={encOB facts.popsProbe} bumpsast={encOB facts.bumpsAst} bumpsprobe={encOB facts.bumpsProbe}"
   | _ => "bad-request"
-
 
 end Pedal.Timeout
